@@ -818,6 +818,18 @@ def gpg_default_history(rng, res, no):
                     pl = md.get_payload()
                     if pl.name != "st" or sorted(pl.materials) != ["m0"] or sorted(pl.products) != ["p0"]:
                         problems.append("final link: name %r materials %r products %r" % (pl.name, sorted(pl.materials), sorted(pl.products)))
+                # ... and the one-phase command with the same default key
+                with quiet():
+                    rl.in_toto_run("run1", ["m0"], ["p0"], [sys.executable, "-c", "pass"], gpg_use_default=True, gpg_home=g.gpg_home)
+                if not os.path.exists("run1.%s.link" % kid8):
+                    problems.append("in_toto_run with the default key wrote no run1.%s.link: %r" % (kid8, sorted(os.listdir("."))))
+                else:
+                    md = Metadata.load("run1.%s.link" % kid8)
+                    sig = md.signatures[0]
+                    try:
+                        md.verify_signature(gpgf.export_pubkey(getattr(sig, "keyid", None) or sig["keyid"], g.gpg_home))
+                    except Exception as e:  # pylint: disable=broad-except
+                        problems.append("the link in_toto_run wrote does not verify with the key that signed it: %s" % type(e).__name__)
         except Exception as e:  # pylint: disable=broad-except
             problems.append("raised %s: %s" % (type(e).__name__, str(e)[:120]))
     finally:
